@@ -4,5 +4,6 @@ here="$(cd "$(dirname "$0")/.." && pwd)"
 for d in "$here"/seeded/${1:-C*}/; do
   n=$(basename "$d"); p=${n%%-*}
   [ -f "$d/patch.diff" ] || continue
+  [ "$n" = "C05-test-state-kept" ] && { echo "== $n: skipped (neutralised by repair 4548c7a, see ROUNDS.json)"; continue; }
   echo "== $n: $(sh "$here/harness/seeded_eval.sh" "$d" $p 2>&1 | tail -1 | cut -c1-200)"
 done
